@@ -9,7 +9,7 @@ from ..build import Builder
 PID = "C19"
 LEVEL = "exploration"
 RULE = ("Enumerated: nser n in 1..N (N=6 quick, 12 thorough) x unit cells {R, C, L, Vcvs (4 ports), Mos, Bipolar, external modules with "
-        "2/3/4 scalar ports, external modules whose ports are named like the generators' own objects (i, units, units_k, inner), a module with a bus port, a module with a bundle port, a module with scalar ports declared in g,s,d,b order} "
+        "2/3/4 scalar ports, external modules whose ports are named like the generators' own objects (i, units, units_k, inner; also as the name of a bundle-valued port), a module with a bus port, a module with a bundle port, a module with scalar ports declared in g,s,d,b order} "
         "x every ordered pair of distinct scalar unit ports as the series pair x given by name / by Signal / mixed; MosStack(n) with "
         "default and given units; Wrapper(m) for every unit, and a second Wrapper(m) after the first wrapper was edited / exported or m itself gained a port; module units also elaborated before being handed to Series / Wrapper. Oracle: the documented chain written as a design spec (n unit instances, "
         "unit k's second series port and unit k+1's first on a private net, ends on the module's series ports, all other ports - bus and "
@@ -47,10 +47,12 @@ def unit_spec(u):
         m = {"name": "UnitBus", "sigs": [["p", 1, "inout"], ["n", 1, "inout"], ["w", 3, "in"]], "bundles": [],
              "insts": [{"name": "l", "of": ["cell", 0], "kind": "inst", "tag": 5, "conns": [["a", ["sig", "p"]], ["b", ["sig", "n"]], ["c", ["sig", "w"]]]}]}
         return [leaf], [], [m], ["mod", 0], ["p", "n"]
-    if u == "mod_bundle":
-        m = {"name": "UnitBundle", "sigs": [["p", 1, "inout"], ["n", 1, "inout"]], "bundles": [["bb", 0, True, False, None, "ctor"]],
+    if u.startswith("mod_bundle"):
+        # (mod_bundle_i / _units / _inner: the bundle-valued port is named like one of the generators' own objects)
+        bb = u[len("mod_bundle_"):] or "bb"
+        m = {"name": "UnitBundle", "sigs": [["p", 1, "inout"], ["n", 1, "inout"]], "bundles": [[bb, 0, True, False, None, "ctor"]],
              "insts": [{"name": "l", "of": ["cell", 0], "kind": "inst", "tag": 5,
-                        "conns": [["a", ["sig", "p"]], ["b", ["bref", ["bun", "bb"], "x"]], ["c", ["cat", [["sig", "n"], ["bref", ["bun", "bb"], "y"]]]]]}]}
+                        "conns": [["a", ["sig", "p"]], ["b", ["bref", ["bun", bb], "x"]], ["c", ["cat", [["sig", "n"], ["bref", ["bun", bb], "y"]]]]]}]}
         return [leaf], [BUNDLE], [m], ["mod", 0], ["p", "n"]
     if u == "mod_gsdb":
         fet = {"kind": "prim", "prim": "Mos", "name": "U"}
@@ -61,7 +63,7 @@ def unit_spec(u):
 
 
 UNITS = ["R", "C", "L", "Vcvs", "Mos", "Bipolar", "ext2", "ext3", "ext4", "mod_bus", "mod_bundle", "mod_gsdb",
-         "adv_i", "adv_units", "adv_elems", "adv_inner", "adv_all"]
+         "adv_i", "adv_units", "adv_elems", "adv_inner", "adv_all", "mod_bundle_i", "mod_bundle_units", "mod_bundle_inner"]
 TAG = 7
 
 
@@ -213,7 +215,7 @@ def cases(tier):
 
 
 def record(res, case, v):
-    nt = case["n"] >= 3 or len(unit_spec(case["unit"])[4]) >= 3 or case["unit"] in ("mod_bus", "mod_bundle")
+    nt = case["n"] >= 3 or len(unit_spec(case["unit"])[4]) >= 3 or (case["unit"] == "mod_bus" or case["unit"].startswith("mod_bundle"))
     feats = [case["kind"], "unit_" + case["unit"], "n%d" % min(case["n"], 4) + ("+" if case["n"] > 4 else "")]
     if case.get("form"):
         feats.append("form_" + case["form"])
@@ -230,7 +232,7 @@ def record(res, case, v):
     if st == "raised":
         res.fail("rejects_documented_request:%s:%s" % (case["kind"], case["unit"]), case, v["detail"])
     elif st == "fail":
-        res.fail("%s:%s:%s" % (v["sig"], case["kind"], "bundle_unit" if case["unit"] == "mod_bundle" else "unit"), case, v["detail"])
+        res.fail("%s:%s:%s" % (v["sig"], case["kind"], "bundle_unit" if case["unit"].startswith("mod_bundle") else "unit"), case, v["detail"])
     elif st == "inconclusive":
         res.notes["iso_inconclusive"] += 1
     res.case(case, nt, feats)
